@@ -31,6 +31,9 @@ def run(pid, path):
     if crate_name == 'aggcheck':
         from . import unit_agg
         crate, _, _ = unit_agg.prepare_crate()
+    elif crate_name == 'ufcheck':
+        from . import unit_uf
+        crate, _ = unit_uf.prepare_crate()
     else:
         crate = kani.instantiate(crate_name)
     binary, _ = kani.build_native(crate, crate_name)
